@@ -7,7 +7,7 @@ SPECIFICATION Spec
 CONSTANTS
   Family = "dyn"
   Kinds = {"int", "struct"}
-  Prefills = {0, 7}
+  Prefills = {0, 7, 40}
   InitCaps = {0, 103}
   Vals = {1, 2, 3}
   MaxLen = 200
